@@ -4,6 +4,7 @@ package desync
 
 import (
 	"bytes"
+	"context"
 	"io"
 	"os"
 )
@@ -49,4 +50,33 @@ func VerifC19_Archive() {
 			io.Copy(io.Discard, f.Data)
 		}
 	}
+}
+
+// VerifC19_ProtocolServer: the casync protocol server fed by a hostile client: a valid HELLO,
+// then a message of solver-chosen type with a length-consistent header and an arbitrary body of
+// any small length (requests shorter than a chunk ID, empty bodies, unknown types), then the end
+// of the stream.  Serve returns (an error or nil) and never panics.
+func VerifC19_ProtocolServer() {
+	vConcCap(600)
+	vSchedFixed(true) // the handshake's two goroutines are a sequential exchange here
+	msg := func(typ uint64, body []byte) []byte {
+		b := append(verifLE64(uint64(16+len(body))), verifLE64(typ)...)
+		return append(b, body...)
+	}
+	in := msg(CaProtocolHello, verifLE64(CaProtocolPullChunks))
+	types := []uint64{CaProtocolRequest, CaProtocolAbort, CaProtocolGoodbye, CaProtocolChunk, CaProtocolMissing, CaProtocolHello, 0x1234}
+	lens := []int{0, 1, 7, 8, 9, 39, 40, 41}
+	nmsg := 1 + vChoose("messages", 2)
+	for k := 0; k < nmsg; k++ {
+		typ := types[vChoose("message-type", len(types))]
+		in = append(in, msg(typ, vBytes("body", lens[vChoose("body-length", len(lens))]))...)
+	}
+	vInput(len(in))
+	st := &verifStore{}
+	st.add([]byte{0x61})
+	var out bytes.Buffer
+	srv := NewProtocolServer(bytes.NewReader(in), &out, st)
+	err := srv.Serve(context.Background())
+	vCover("serve-returned")
+	_ = err
 }
